@@ -54,7 +54,7 @@ for (pid, n), val in sorted(M.items()):
     what, needs, caught, missed = val[:4]
     fprops = list(val[4]) if len(val) > 4 else None        # file-targeted round: the properties the change breaks
     # round 1: <id>-1/-2 (/tmp/seed), round 2: -3/-4 (/tmp/seed2), round 3: -5/-6 (/tmp/seed4), round 4: -7/-8 (/tmp/seed5)
-    root, k = ["/tmp/seed", "/tmp/seed2", "/tmp/seed4", "/tmp/seed5", "/tmp/seed6", "/tmp/seed8", "/tmp/seed10", "/tmp/seed11"][(n - 1) // 2], (n - 1) % 2 + 1
+    root, k = ["/tmp/seed", "/tmp/seed2", "/tmp/seed4", "/tmp/seed5", "/tmp/seed6", "/tmp/seed8", "/tmp/seed10", "/tmp/seed11", "/tmp/seed12"][(n - 1) // 2], (n - 1) % 2 + 1
     if root == "/tmp/seed8" and not os.path.exists(f"{root}/{pid}") and os.path.exists(f"/tmp/seed9/{pid}"):
         root = "/tmp/seed9"                                 # round 8: the ten properties round 7 left out
     if pid.startswith("F"):                                 # round 6: targets are files, /tmp/seed7/Fxx
